@@ -5,6 +5,7 @@ import TongoProofs.Lemmas.PoolSMDeadlock
 import TongoProofs.Lemmas.PoolSMSelect
 import TongoProofs.Lemmas.PoolSMLive
 import TongoProofs.Lemmas.PoolSMTimer
+import TongoProofs.Lemmas.PoolSMFairExample
 /-! Property C13 — the connection pool picks a healthy, current server and its waits never hang.
 Property theorems only (helper lemmas live in TongoProofs/Lemmas/PoolSelect.lean, PoolSM*.lean).
 
@@ -249,7 +250,7 @@ theorem deadlock_orig_notify :
     rw [hs] at h
     simp only [Option.map_some, Option.some.injEq] at h
     have hr : Reachable orig s :=
-      reachable_of_runTrace _ (Reachable.init [0] (some 0) [10] [(0, 5), (0, 6)] .bestPing [] (by decide) (by decide)) hs
+      reachable_of_runTrace _ (Reachable.init [0] (some 0) [10] [(0, 5), (0, 6)] .bestPing [] (by decide) (by decide) (by decide)) hs
     obtain ⟨h1, h2⟩ := deadlocked_spec h
     exact ⟨s, hr, h1, h2, fun ⟨a, hae, ha⟩ => by
       rw [h1 a (by cases a <;> simp_all [Action.isAttr, Action.isEnv])] at ha; cases ha⟩
@@ -283,7 +284,7 @@ theorem deadlock_orig_publish :
       rw [hs] at h
       simp only [Option.map_some, Option.some.injEq] at h
       obtain ⟨h1, h2⟩ := deadlocked_spec h
-      exact ⟨s, reachable_of_runTrace _ (Reachable.init [0] (some 0) [] _ .bestPing [] (by decide) (by decide)) hs, h1, h2⟩
+      exact ⟨s, reachable_of_runTrace _ (Reachable.init [0] (some 0) [] _ .bestPing [] (by decide) (by decide) (by decide)) hs, h1, h2⟩
   refine ⟨key orig rfl (by decide), ?_⟩
   intro h
   obtain ⟨s, hr, h1, hq⟩ := key ⟨true, false, true, true, true⟩ rfl (by decide)
@@ -540,15 +541,63 @@ theorem wait_returns (e : Exec fixed) (i n0 : Nat) (r : WRes)
     ∃ m, n0 ≤ m ∧ ∃ w, (e.st m).waiters[i]? = some w ∧ w.pc = .done r :=
   returns_eventually (v := fixed) rfl rfl e hfR hfS i n0 r hfU hw
 
+/-! ### non-vacuity of the liveness theorems: explicit fair infinite executions (`Lemmas/PoolSMFairExample.lean`) -/
+
+/-- `wait_success_spec` and `wait_returns` instantiated on an explicit execution: a waiter for seqno 6 registers on a
+pool at head 5, head 6 is published, `Run` notifies, the waiter receives and unsubscribes, then only the environment
+acts forever. All fairness hypotheses are PROVED for this execution; the conclusions hold non-vacuously (from step 7,
+where notifySubscribers iterates with head 6 and has not served the waiter yet). -/
+theorem liveness_nonvacuous :
+    (∃ m, 7 ≤ m ∧ ∃ w', (FairExample.exec.st m).waiters[0]? = some w' ∧ (w'.pc = .leave .ok ∨ w'.pc = .done .ok)) ∧
+    (∃ m, 11 ≤ m ∧ ∃ w', (FairExample.exec.st m).waiters[0]? = some w' ∧ w'.pc = .done .ok) := by
+  constructor
+  · exact wait_success_spec FairExample.exec 0 7
+      { target := 6, pc := .sel, wid := 1, timer := .armed } FairExample.fairRun FairExample.fairRecv
+      FairExample.nofire (by decide) rfl (Or.inr (Or.inl ⟨false, 6, [0], by decide, by decide, by decide⟩))
+  · exact wait_returns FairExample.exec 0 11 .ok FairExample.fairRun FairExample.fairSub FairExample.fairUnsub
+      ⟨{ target := 6, pc := .leave .ok, wid := 1, timer := .armed, received := [6], offered := some 6 },
+        by decide, rfl⟩
+
+/-- `timeout_bounded` instantiated on an explicit fair execution in which the timeout elapses at step 3 -/
+theorem timeout_nonvacuous :
+    ∃ m, 3 ≤ m ∧ ∃ w, (FairExample2.exec.st m).waiters[0]? = some w ∧ ((∃ r, w.pc = .leave r) ∨ ∃ r, w.pc = .done r) :=
+  (timeout_bounded FairExample2.exec 0 3
+    ⟨{ target := 6, pc := .sel, wid := 1, timer := .due }, by decide, rfl, rfl⟩).2 FairExample2.fairFire
+
+/-- **indices_in_range**: in every reachable state every index the model dereferences with a default (`getD`,
+`[i]?`, `List.set`) is in range: the best connection and every SetMasterHead caller name an existing member, every
+wait-list entry and every channel `Run` still has to serve belongs to an existing waiter — the defaults are dead
+code, no out-of-range access is hidden by totalisation. (Go cannot index out of range here either: these are pointers
+and map entries.) -/
+theorem indices_in_range (v : Variant) (s : State) (hr : Reachable v s) :
+    (∀ c, s.best = some c → c < s.heads.length) ∧
+    (∀ (j : Nat) (x : Setter), s.setters[j]? = some x → x.conn < s.heads.length) ∧
+    (∀ e ∈ s.waitList, e.2 < s.waiters.length) ∧
+    (∀ sw h todo, s.run = .nLoop sw h todo → ∀ w ∈ todo, w < s.waiters.length) ∧
+    (∀ sw h h' w todo, s.run = .nPut sw h h' w todo → w < s.waiters.length) := by
+  have hL := reachable_invL hr
+  have hA := reachable_invA hr
+  refine ⟨hL.bestOk, hL.connOk, ?_, ?_, ?_⟩
+  · intro e he
+    obtain ⟨x, hx, _⟩ := hA.vWl e he
+    exact (List.getElem?_eq_some_iff.mp hx).1
+  · intro sw h todo hrun w hw
+    obtain ⟨x, hx, _⟩ := hA.vLoop sw h todo hrun w hw
+    exact (List.getElem?_eq_some_iff.mp hx).1
+  · intro sw h h' w todo hrun
+    obtain ⟨⟨x, hx, _⟩, _⟩ := hA.vPut sw h h' w todo hrun
+    exact (List.getElem?_eq_some_iff.mp hx).1
+
 /-- with a best connection chosen initially (which `addConnection` guarantees for a non-empty pool) no waiter ever
 dereferences a nil `bestConn`: `subscribe` does not panic. (On an EMPTY pool `WaitMasterchainSeqno` does panic —
 `p.bestConn.MasterHead()` on a nil interface; outside the property's quantifier, noted in the report.) -/
 theorem no_nil_deref (v : Variant) (heads : List Nat) (c : Nat) (targets : List Nat) (pubs : List (Nat × Nat))
     (st : Strategy) (rtts : List Int)
-    (hp : ∀ p ∈ pubs, p.1 < heads.length ∧ p.2 < 2 ^ 32) (hh : ∀ h ∈ heads, h < 2 ^ 32) (as : List Action) (s : State)
+    (hp : ∀ p ∈ pubs, p.1 < heads.length ∧ p.2 < 2 ^ 32) (hh : ∀ h ∈ heads, h < 2 ^ 32) (hc : c < heads.length)
+    (as : List Action) (s : State)
     (h : runTrace v (mkInit heads (some c) targets pubs st rtts) as = some s) :
     s.best ≠ none ∧ ∀ (i : Nat) (w : Waiter), s.waiters[i]? = some w → w.pc ≠ .done .panic := by
-  refine noPanic_trace as (Reachable.init heads (some c) targets pubs st rtts hp hh) ⟨by simp [mkInit], ?_⟩ h
+  refine noPanic_trace as (Reachable.init heads (some c) targets pubs st rtts hp hh (by intro c' h'; cases h'; exact hc)) ⟨by simp [mkInit], ?_⟩ h
   intro i w hw
   have := mkInit_waiter hw
   simp [this.1]
